@@ -1,5 +1,6 @@
 import SJ.Props.C06
 import SJ.Props.C06Int
+import SJ.Props.C06Via
 #print axioms SJ.Props.C06.c06_typed
 #print axioms SJ.Props.C06.c06_accessors
 #print axioms SJ.Props.C06Int.c06_overflow_guard_spec
@@ -8,3 +9,6 @@ import SJ.Props.C06Int
 #print axioms SJ.Props.C06Int.c06_parse_integer_intClass
 #print axioms SJ.Props.C06Int.c06_minus_zero
 #print axioms SJ.Props.C06Int.c06_out_of_integer_range
+#print axioms SJ.Props.C06.c06_via_value
+#print axioms SJ.Props.C06.c06_via_value_ap_partial
+#print axioms SJ.Props.C06.c06_ap_negative_zero_via_value
